@@ -99,13 +99,18 @@ func (srv *Session) consumeSingleCommand(ctx context.Context, reader *buffer.Rea
 		return err
 	}
 
+	// NOTE: we increase the wait group by one in order to make sure that idle
+	// connections are not blocking a close. The command is admitted while
+	// holding the read lock to ensure that a concurrent close either observes
+	// the command or prevents it from being started.
+	srv.mu.RLock()
 	if srv.closing.Load() {
+		srv.mu.RUnlock()
 		return nil
 	}
 
-	// NOTE: we increase the wait group by one in order to make sure that idle
-	// connections are not blocking a close.
 	srv.wg.Add(1)
+	srv.mu.RUnlock()
 	srv.logger.Debug("<- incoming command", slog.Int("length", length), slog.String("type", t.String()))
 	err = srv.handleCommand(ctx, conn, t, reader, writer)
 	srv.wg.Done()
